@@ -34,7 +34,7 @@ theorem PlainFile.shape {c : Cfg} {fs fs' : FS} {p : Text} {pi a : Nat}
 /-- the content fields of a node: what a reader of the file gets is a function of these -/
 def ContentEq (n n' : Inode) : Prop := n.data = n'.data ∧ n.mat = n'.mat ∧ n.te = n'.te
 
-theorem ContentEq.rfl' (n : Inode) : ContentEq n n := ⟨rfl, rfl, rfl⟩
+theorem ContentEq.same (n : Inode) : ContentEq n n := ⟨rfl, rfl, rfl⟩
 
 /-- `O_TRUNC` (after the package content was buffered, when there was any) -/
 def truncF (n : Inode) : Inode := { n with data := [], mat := true }
